@@ -187,8 +187,53 @@ def gen_life_program(rng, modes):
     return objs, threads, {"x0": expect}, tag
 
 
+def gen_cancel_program(rng):
+    """lock() is not a cancellation point: a waiter that is cancelled while it is parked behaves like any waiter.
+    Main holds m0 while the waiters A (thread 1), B (thread 2) [, C] arrive and park behind each other; somebody
+    cancels A - before or after the holder's unlock, before A has re-read the word; A's program has its testcancel
+    AFTER its critical section: it must acquire, add, unlock (passing the wake-up on to B) and only then terminate."""
+    objs = ["m0 mutex", "x0 var 0"]
+    nw = rng.rng(2, 3)                    # waiters
+    expect = 0
+    threads = {}
+    main = ["lock m0"] + ["create %d" % t for t in range(1, nw + 1)]
+    main += [rng.choice(["yield", "nop", "yield 1"]) for _ in range(rng.rng(2, 5))]
+    d = rng.rng(1, 9)
+    main += ["add x0 %d" % d]
+    expect += d
+    before = rng.chance(1, 2)
+    canceller_main = rng.chance(2, 3)
+    if before and canceller_main:
+        main += ["cancel 1"]
+    main += ["unlock m0"]
+    if not before and canceller_main:
+        main += ["cancel 1"]
+    for t in range(1, nw + 1):
+        a = rng.rng(1, 9)
+        ops = ["lock m0", "add x0 %d" % a] + (["yield"] if rng.chance(1, 3) else []) + ["unlock m0"]
+        expect += a
+        if t == 1:
+            ops += ["testcancel", "nop"]
+        elif t == 2 and not canceller_main:
+            ops = ["cancel 1"] + ops if before else ops + ["cancel 1"]
+        threads[t] = ops
+    main += ["join %d" % t for t in range(1, nw + 1)] + ["get x0"]
+    threads[0] = main
+    return objs, threads, {"x0": expect}, nw + 1
+
+
 def gen_case(rng, kind=None, workers=None, pswitch=None, modes=None):
     kind = kind or ("cond" if rng.chance(1, 4) else "mutex")
+    if kind == "cancel":
+        workers = workers or rng.rng(1, 4)
+        pswitch = pswitch or rng.choice([20, 35, 60, 85])
+        objs, threads, expect, N = gen_cancel_program(rng)
+        extra = {}
+        if rng.chance(1, 2):
+            extra["hold"] = rng.choice(["wake1.push %d 100" % rng.rng(3, 10), "mutex.lock.read %d 50" % rng.rng(3, 10),
+                                        "mutex.clearbit %d 100" % rng.rng(3, 8)])
+        text = trace.case_text(workers, rng.rng(1, 1 << 30), objs, threads, pswitch=pswitch, extra=extra)
+        return {"text": text, "kind": kind, "N": N, "workers": workers, "pswitch": pswitch, "expect": expect}
     if kind == "life":
         modes = modes or [rng.choice(["", "attr", "static"]) for _ in range(rng.rng(1, 2))]
         workers = workers or rng.rng(1, 4)
@@ -513,9 +558,30 @@ def run(ctx):
     nl = 30 if not ctx.thorough else 300
     cases += [gen_case(ctx.rng, kind="life", modes=[["attr"], [""], ["static"], ["attr", ""], ["", "attr"], ["static", "attr"]][i % 6])
               for i in range(nl)]
+    # cancellation of a parked waiter (lock is not a cancellation point)
+    cases += [gen_case(ctx.rng, kind="cancel") for _ in range(30 if not ctx.thorough else 300)]
     results, fails, mism = judge(ctx, cases, exe, drv)
     hist = sync_common.point_histogram(results)
     missing = [p for p in POINTS if not hist.get(p)]
+    canc = {"runs": 0, "cancelled_while_parked": 0, "cancelled_waiter_acquired_later": 0}
+    for c, r in zip(cases, results):
+        if c.get("kind") != "cancel":
+            continue
+        canc["runs"] += 1
+        parked, hit = False, False
+        for e in r["events"]:
+            if e.kind == "P" and e.words[0] == "blockq.enq" and e.actor == 1:
+                parked = True
+            elif e.kind == "P" and e.words[0] in ("wake1.push",) and e.words[2] == "t1":
+                parked = False
+            elif e.kind == "C" and e.words[0] == "cancel" and e.words[1] == "1" and parked:
+                hit = True
+            elif hit and e.kind == "R" and e.actor == 1 and any(x == "occ=1" for x in e.words[2:]):
+                canc["cancelled_waiter_acquired_later"] += 1
+                hit = False
+                canc["cancelled_while_parked"] += 1
+    if canc["cancelled_waiter_acquired_later"] == 0 and not fails:
+        missing.append("situation:a waiter cancelled while parked acquires afterwards")
     life = {"reinit_null": 0, "reinit_attr": 0, "reinit_static": 0, "incarnations_replayed": 0, "sleeps_after_reinit": 0}
     for c, r in zip(cases, results):
         if c.get("kind") != "life":
@@ -568,11 +634,11 @@ def run(ctx):
         "cases": len(cases), "corpus_cases": len(corpus), "model_steps_replayed": sum(
             int(m.split()[1]) for r in results for m in r["model"] if m.startswith("ok")),
         "disagreements": len(mism), "oracle_failures": len(fails),
-        "input_distribution_kind": {k: sum(v for kk, v in dist.items() if kk.startswith(k)) for k in ("mutex", "cond", "timed", "hold", "life")},
+        "input_distribution_kind": {k: sum(v for kk, v in dist.items() if kk.startswith(k)) for k in ("mutex", "cond", "timed", "hold", "life", "cancel")},
         "input_distribution_workers": {str(w): sum(v for kk, v in dist.items() if "/w%d/" % w in kk) for w in (1, 2, 3, 4)},
         "input_distribution_pswitch": {str(p): sum(v for kk, v in dist.items() if kk.endswith("/p%d" % p)) for p in (20, 35, 60, 85)},
         "verdicts": verd, "return_values": rets, "point_histogram": {p: hist.get(p, 0) for p in POINTS},
-        "wake1.spin_events": spins, "situations_2_to_4_workers": sit, "object_lifecycle": life, "runs_with_two_callbacks_of_one_thread": sum(1 for r in results if overlap_stats(r) >= 2)}
+        "wake1.spin_events": spins, "situations_2_to_4_workers": sit, "object_lifecycle": life, "cancelled_waiters": canc, "runs_with_two_callbacks_of_one_thread": sum(1 for r in results if overlap_stats(r) >= 2)}
     ctx.cov["evaluations"] = sum(len(r["events"]) for r in results)
     ctx.cov["samples"] += [{"case": cases[i]["text"], "verdict": results[i]["verdict"], "model": results[i]["model"]}
                            for i in (0, len(cases) // 2, len(cases) - 1)]
